@@ -1,4 +1,5 @@
 import Toodee.Driver.Step
+import Toodee.Spec.History
 /-
   `step` part 2: structural operations, conversions, in-place operations, dispatch.
 -/
@@ -69,6 +70,27 @@ def drainColWord (m : Mode) (d : DrainCol Nat) : List String → List String →
       | .error e => (d, toks, ys, some e)
     | _ => (d, toks ++ ["?"], ys, none)
 
+/-- how large a sort's side table may be: `isize::MAX / 16` entries -/
+def sideLimit : Nat := 576460752303423487
+
+/-- the environment of the history-level definitions (Spec/History.lean) for this case -/
+def Ctx.henv (cx : Ctx) : HEnv := ⟨cx.m, cx.capLimit, sideLimit⟩
+
+/-- the consuming steps of an (expanded) drain word as the `List Bool` the history operations carry: `true` = `next`, `false` = `next_back` -/
+def consumption (steps : List String) : List Bool :=
+  steps.filterMap fun s => if s = "n" ∨ s = "n!" then some true else if s = "b" ∨ s = "b!" then some false else none
+
+/-- **prediction through the history-level definitions**: the array after the call is `hstep`, the outcome `hres`, and the ledger
+    follows the element flow `hflow` (what was handed to the harness is dropped by it at the end of the step; `extra` = values the
+    harness itself owns and drops, e.g. the source of a clone).  These are the objects the theorems C01 / C05 are about. -/
+def viaHistory (cx : Ctx) (hop : HOp Nat) (toks : List String := []) (extra : List Nat := []) : MOut :=
+  let e := cx.henv
+  let t := cx.td
+  let t' := hstep e t hop
+  let f := hflow e t hop
+  let st := match hres e t hop with | .ok _ => "ok" | .error er => errStatus er
+  { cx.ofTD t' with status := st, toks := toks, drops := cx.dr (f.handed ++ f.dropped ++ extra), leaked := f.leaked.length }
+
 def stepStructural (cx : Ctx) (op : String) (args : List String) : Option MOut :=
   let m := cx.m
   let t := cx.td
@@ -79,66 +101,81 @@ def stepStructural (cx : Ctx) (op : String) (args : List String) : Option MOut :
     -- left unmodelled (`M ?`); the oracle still judges the step
     if cx.elem = .zst ∧ l > 100000 then none
     pure ⟨l, ev.map (·.map cx.v)⟩
-  let finishRow (d : DrainRow Nat) (word fin : String) : Option MOut :=
+  -- drains: the tokens come from stepping the drain model along the word; state, outcome and ledger from the history operation
+  let rowToks (d : DrainRow Nat) (word : String) : List String × List Bool :=
     let steps := expandDrainWord d.len (if word = "-" then [] else word.splitOn ",")
-    let (d, toks, ys) := drainRowWord d steps [] []
-    match fin with
-    | "drop" => let (t', dropped) := d.drop; some { cx.ofTD t' with toks := toks, drops := cx.dr (ys ++ dropped) }
-    | "leak" => let (t', leaked) := d.leak; some { cx.ofTD t' with toks := toks, drops := cx.dr ys, leaked := leaked.length }
-    | _ => none
-  let finishCol (d : DrainCol Nat) (word fin : String) : Option MOut :=
+    let (_, toks, _) := drainRowWord d steps [] []
+    (toks, consumption steps)
+  let colToks (d : DrainCol Nat) (word : String) : List String × List Bool × Option Err :=
     let steps := expandDrainWord d.iter.v.len (if word = "-" then [] else word.splitOn ",")
-    let (d, toks, ys, err) := drainColWord m d steps [] []
-    match err with
-    | some e => some { cx.fail e with toks := toks }
-    | none =>
-      match fin with
-      | "drop" =>
-        match d.drop m with
-        | .ok (t', dropped) => some { cx.ofTD t' with toks := toks, drops := cx.dr (ys ++ dropped) }
-        | .error e => some { cx.fail e with toks := toks }
-      | "leak" => let (t', leaked) := d.leak; some { cx.ofTD t' with toks := toks, drops := cx.dr ys, leaked := leaked.length }
-      | _ => none
+    let (_, toks, _, err) := drainColWord m d steps [] []
+    (toks, consumption steps, err)
   match op, args with
   | "insert_row", [i, l, ev] => do
     let i ← nat? i; let it ← script l ev
-    pure (ofIns cx (t.insertRow m cx.capLimit i it (spareFor it.claimed)))
+    pure (viaHistory cx (.insertRow i it (spareFor it.claimed)))
   | "push_row", [l, ev] => do
     let it ← script l ev
-    pure (ofIns cx (t.pushRow m cx.capLimit it (spareFor it.claimed)))
+    pure (viaHistory cx (.insertRow t.numRows it (spareFor it.claimed)))
   | "insert_col", [i, l, ev] => do
     let i ← nat? i; let it ← script l ev
-    pure (ofIns cx (t.insertCol m cx.capLimit i it (spareFor it.claimed)))
+    pure (viaHistory cx (.insertCol i it (spareFor it.claimed)))
   | "push_col", [l, ev] => do
     let it ← script l ev
-    pure (ofIns cx (t.pushCol m cx.capLimit it (spareFor it.claimed)))
+    pure (viaHistory cx (.insertCol t.numCols it (spareFor it.claimed)))
   | "remove_row", [i, word, fin] => do
     let i ← nat? i
     match t.removeRow m i with
-    | .ok d => finishRow d word fin
-    | .error e => pure (cx.fail e)
+    | .ok d =>
+      let (toks, w) := rowToks d word
+      match fin with
+      | "drop" => pure (viaHistory cx (.removeRow i w) toks)
+      | "leak" => pure (viaHistory cx (.removeRowLeak i w) toks)
+      | _ => none
+    | .error _ => pure (viaHistory cx (.removeRow i []))
   | "pop_row", [word, fin] =>
     match t.popRow m with
-    | .ok (some d) => finishRow d word fin
-    | .ok none => pure { cx.same with toks := ["none"] }
+    | .ok (some d) =>
+      let (toks, w) := rowToks d word
+      match fin with
+      | "drop" => pure (viaHistory cx (.popRow w) toks)
+      | "leak" => pure (viaHistory cx (.removeRowLeak (t.numRows - 1) w) toks)
+      | _ => none
+    | .ok none => pure (viaHistory cx (.popRow []) ["none"])
     | .error e => pure (cx.fail e)
   | "remove_col", [i, word, fin] => do
     let i ← nat? i
     match t.removeCol m i with
-    | .ok d => finishCol d word fin
-    | .error e => pure (cx.fail e)
+    | .ok d =>
+      let (toks, w, err) := colToks d word
+      match err with
+      | some e => pure { cx.fail e with toks := toks }
+      | none =>
+        match fin with
+        | "drop" => pure (viaHistory cx (.removeCol i w) toks)
+        | "leak" => pure (viaHistory cx (.removeColLeak i w) toks)
+        | _ => none
+    | .error _ => pure (viaHistory cx (.removeCol i []))
   | "pop_col", [word, fin] =>
     match t.popCol m with
-    | .ok (some d) => finishCol d word fin
-    | .ok none => pure { cx.same with toks := ["none"] }
+    | .ok (some d) =>
+      let (toks, w, err) := colToks d word
+      match err with
+      | some e => pure { cx.fail e with toks := toks }
+      | none =>
+        match fin with
+        | "drop" => pure (viaHistory cx (.popCol w) toks)
+        | "leak" => pure (viaHistory cx (.removeColLeak (t.numCols - 1) w) toks)
+        | _ => none
+    | .ok none => pure (viaHistory cx (.popCol []) ["none"])
     | .error e => pure (cx.fail e)
-  | "clear", [] => pure { cx.ofTD t.clear with drops := cx.dr t.data }
-  | "swap_dimensions", [] => pure (cx.ofTD t.swapDimensions)
+  | "clear", [] => pure (viaHistory cx .clear)
+  | "swap_dimensions", [] => pure (viaHistory cx .swapDimensions)
   | "reserve", [n] | "reserve_exact", [n] => do
     let n ← nat? n
-    if reserveOk cx.capLimit t.data.length n then pure cx.same else pure (cx.fail .panic)
-  | "shrink_to_fit", [] => pure cx.same
-  | "capacity", [] => pure { cx.same with toks := ["1"] }
+    if reserveOk cx.capLimit t.data.length n then pure (viaHistory cx .capacityCall) else pure (cx.fail .panic)
+  | "shrink_to_fit", [] => pure (viaHistory cx .capacityCall)
+  | "capacity", [] => pure (viaHistory cx .capacityCall ["1"])
   | _, _ => none
 
 def stepConv (cx : Ctx) (rc : Recv) (op : String) (args : List String) : Option MOut :=
@@ -147,10 +184,10 @@ def stepConv (cx : Ctx) (rc : Recv) (op : String) (args : List String) : Option 
   let data := cx.prev.data
   match op, args with
   | "into_vec", [] | "into_box", [] =>
-    pure { cx.ofTD TD.default with toks := [fmtList data], drops := cx.dr data }
+    pure (viaHistory cx (.takeInto data.length) [fmtList t.intoVec])
   | "into_iter", [k] => do
     let k ← nat? k
-    pure { cx.ofTD TD.default with toks := [fmtList (data.take k)], drops := cx.dr data }
+    pure (viaHistory cx (.takeInto k) [fmtList (t.intoIter.take k)])
   | "to_owned", [] =>
     -- `From<TooDeeView>` / `From<TooDeeViewMut>` (`VW.toOwned`)
     match rc with
@@ -168,9 +205,6 @@ def stepConv (cx : Ctx) (rc : Recv) (op : String) (args : List String) : Option 
     pure { cx.same with toks := [if e then "1" else "0", if e then "hasheq=1" else "hasheq=0"], drops := cx.dr (cx.vs l) }
   | "vieweq", [] => pure { cx.same with toks := ["1", "hasheq=1"] }
   | _, _ => none
-
-/-- how large a sort's side table may be: `isize::MAX / 16` entries -/
-def sideLimit : Nat := 576460752303423487
 
 /-- the cells of the receiver, row-major (what an overwrite of the whole receiver drops) -/
 def recvCells (m : Mode) (rc : Recv) (data : List Nat) : Res (List Nat) := do
@@ -250,6 +284,12 @@ def stepInplace (cx : Ctx) (rc : Recv) (op : String) (args : List String) (robs 
     match parseMOp cx op args side with
     | none => none
     | some mop =>
+      if rc.isRoot then
+        -- owned array: the history operation `.inplace mop` (C01 / C05); the harness additionally drops the source it cloned from
+        let extra := match mop with | .copyFromSlice l => l | .copyFromTooDee src => src.arr.data | _ => []
+        let o := viaHistory cx (.inplace mop) [] extra
+        some { o with leaked := 0 }
+      else
       let r := rc.run m sideLimit data mop
       let old := (recvCells m rc data).toOption.getD []
       -- elements created / dropped besides the moves: clones written over old cells, the source dropped afterwards
